@@ -236,6 +236,36 @@ done:
     for (unsigned i = 0; i < PV_NWORDS; ++i) free(hw[i]);
 }
 
+/* ---------------------------------------------------------------- phrases whose 16 words all have the same byte length
+ * (e.g. sixteen 3-letter English words): any shortcut that classifies a phrase by the shape of its words shows here */
+static uint64_t n_homog(void) { return (uint64_t)pv_nlangs * 40 * pv_scaled(6, 100); }
+static void run_homog(uint64_t idx, pv_rng* rng) {
+    if (striped_out(idx)) return;
+    int l = (int)(idx % (uint64_t)pv_nlangs); pv_mlang* L = &pv_langs[l];
+    int len = (int)((idx / (uint64_t)pv_nlangs) % 40);
+    if (!L->lib) return;
+    unsigned set[PV_NWORDS]; int n = 0;
+    for (unsigned i = 0; i < PV_NWORDS; ++i) if (L->len[i] == len) set[n++] = i;
+    if (n < 24) return;
+    unsigned coin = pv_gen_coin(rng), d[16]; pv_mseed m;
+    if (!pv_gen_from_set(rng, set, n, coin, 7, d, &m)) { PV_COUNT("homogeneous.not_constructible", 1); return; }
+    char raw[2048]; pv_m_join_space(L, d, raw, sizeof raw);
+    char* in = (L->compose && pv_randn(rng, 2)) ? pv_nfc_alloc(raw) : pv_exact_str(raw);
+    uint8_t mimg[32]; pv_m_image(&m, mimg); uint8_t* img = malloc(32);
+    polyseed_data* s = NULL; int st = pv_api_decode_explicit(in, coin, L->lib, &s);
+    PV_COUNT("evaluations", 1);
+    if (st != POLYSEED_OK) pv_violation("C07/word-not-recognised", "%s: phrase of sixteen %d-byte words -> decode_explicit %s; '%s'", L->name_en, len, pv_status_name(st), pv_esc(in));
+    else { pv_api_store(s, img); if (memcmp(img, mimg, 32)) pv_violation("C07/word-decodes-to-other-index", "%s: phrase of sixteen %d-byte words decodes to another seed", L->name_en, len); pv_api_free(s); }
+    pv_mdecode md; pv_m_decode(in, coin, NULL, 7, &md);
+    const polyseed_lang* lo = NULL; s = NULL; st = pv_api_decode(in, coin, &lo, &s);
+    PV_COUNT("evaluations", 1);
+    if (md.status >= 0 && st != md.status) pv_violation("C07/auto-detect", "%s: phrase of sixteen %d-byte words: decode -> %s, model %s; '%s'", L->name_en, len, pv_status_name(st), pv_status_name(md.status), pv_esc(in));
+    else if (st == POLYSEED_OK && lo != L->lib) pv_violation("C07/auto-detect", "%s: phrase of sixteen %d-byte words detected as another language", L->name_en, len);
+    else { pv_countf(1, "homogeneous.ok.%s.len%d", L->key, len); PV_COUNT("homogeneous.phrases", 1); PV_DISTINCT("nontrivial", pv_mix(pv_hash_str(in), coin)); }
+    if (st == POLYSEED_OK) pv_api_free(s);
+    free(img); free(in);
+}
+
 static void fini(void) {
     pv_set_flag("exhaustive.language_x_index_x_position", pv.scale_pct >= 100);
     if (pv_ledger_live() != 0) pv_info("ledger", "%d blocks live at exit", pv_ledger_live());
@@ -247,6 +277,7 @@ int main(int argc, char** argv) {
         { "encode", n_sweep, run_encode },
         { "decode", n_sweep, run_decode },
         { "lists", n_lists, run_lists },
+        { "homogeneous", n_homog, run_homog },
     };
-    return pv_main(argc, argv, "C07", secs, 4, init, fini);
+    return pv_main(argc, argv, "C07", secs, 5, init, fini);
 }
